@@ -139,6 +139,12 @@ def grammar_rules(rep, ex: Explorer):
         ok = name in g and all(a["skip"] for a in g[name])
         rep.check(ok, "LEX.skip", site_l, name, f"{name} is skipped", extracted="skip" if ok else "not skipped / missing", required="-> skip", function=site_l)
     lexer_rules = [n for n in g if n[:1].isupper()]
+    for n in lexer_rules:
+        for a in g[n]:
+            el = a["elems"]
+            greedy = [k for k in range(len(el) - 1) if el[k] == "." and el[k + 1] in "*+" and not (k + 2 < len(el) and el[k + 2] == "?")]
+            rep.check(not greedy, "LEX.skip", site_l, f"{n} wildcard loop", "a token delimited by a closing literal uses the non-greedy wildcard loop (a greedy one runs to the last closing delimiter of the input and swallows everything in between)",
+                      extracted=" ".join(el), required="'.*?' before the closing delimiter", function=site_l)
     catch = [n for n in lexer_rules if any(a["elems"] == ["."] for a in g[n])]
     rep.check(not catch, "LEX.skip", site_l, "no catch-all token", "illegal characters are not swallowed by a catch-all token rule", extracted=str(catch), required="none", function=site_l)
     rep.floor("grammar rules read", len(g), 8)
@@ -445,3 +451,214 @@ def reject(rep, ex: Explorer, grammar):
                       extracted=f"grammar rule '{entry}' does not end with EOF; end-of-input check after parsing: {'present' if la else 'absent'}", required="EOF in the rule or LA(1) == EOF check", function=site)
         rep.floor(f"entry-rule invocations in {fn}", n_entry, 1)
     rep.floor("wrapper return paths", n, 2)
+
+
+# ----------------------------------------------------------------------------------------------
+# generated lexer: the serialized ATN against the grammar
+# ----------------------------------------------------------------------------------------------
+def decode_atn(data):
+    """Deserialize an ANTLR 4 (serialization version 4) ATN into states, rules, sets, edges and lexer actions."""
+    pos = [0]
+
+    def rd():
+        v = data[pos[0]]
+        pos[0] += 1
+        return v
+
+    ver = rd()
+    if ver != 4:
+        raise AnalysisError(f"generated lexer: unsupported ATN serialization version {ver}")
+    gtype, max_tok = rd(), rd()
+    states = []
+    for _ in range(rd()):
+        st = rd()
+        if st == 0:
+            states.append(None)
+            continue
+        rule = rd()
+        extra = rd() if st in (12, 3, 4, 5) else None
+        states.append((st, rule, extra))
+    nongreedy = [rd() for _ in range(rd())]
+    _prec = [rd() for _ in range(rd())]
+    rules = []
+    for _ in range(rd()):
+        s = rd()
+        tok = rd() if gtype == 0 else None
+        rules.append((s, tok))
+    modes = [rd() for _ in range(rd())]
+    sets = []
+    for _ in range(rd()):
+        n = rd()
+        eof = rd()
+        iv = [(rd(), rd()) for _ in range(n)]
+        sets.append((iv, bool(eof)))
+    edges = [(rd(), rd(), rd(), rd(), rd(), rd()) for _ in range(rd())]
+    decisions = [rd() for _ in range(rd())]
+    actions = []
+    if gtype == 0:
+        actions = [(rd(), rd(), rd()) for _ in range(rd())]
+    return {"type": gtype, "max_token": max_tok, "states": states, "nongreedy": nongreedy, "rules": rules, "modes": modes, "sets": sets,
+            "edges": edges, "decisions": decisions, "actions": actions}
+
+
+def _g4_charset(tok):
+    """Characters of a quoted literal or a bracket set of the grammar, as a set of code points."""
+    def unesc(s):
+        out, i = [], 0
+        while i < len(s):
+            if s[i] == "\\" and i + 1 < len(s):
+                out.append({"n": "\n", "r": "\r", "t": "\t"}.get(s[i + 1], s[i + 1]))
+                i += 2
+            else:
+                out.append(s[i])
+                i += 1
+        return out
+
+    if tok.startswith("'"):
+        return {ord(c) for c in unesc(tok[1:-1])}, "".join(unesc(tok[1:-1]))
+    if tok.startswith("["):
+        cs = unesc(tok[1:-1])
+        out, i = set(), 0
+        while i < len(cs):
+            if i + 2 < len(cs) and cs[i + 1] == "-":
+                out |= set(range(ord(cs[i]), ord(cs[i + 2]) + 1))
+                i += 3
+            else:
+                out.add(ord(cs[i]))
+                i += 1
+        return out, None
+    return None, None
+
+
+def lexer_atn(rep, ex: Explorer, g):
+    """LEX.generated: the generated lexer (its serialized ATN) implements the token rules of the grammar: the same literal
+    tokens, the same named tokens in the same order, per named token the same characters, wildcards, (non-)greedy loops
+    and skip actions."""
+    import ast as _ast
+
+    path = os.path.join(ex.prog.root, "parser", "CKBLexer.py")
+    site = "parser/CKBLexer.py:serializedATN"
+    try:
+        tree = _ast.parse(open(path, encoding="utf-8").read())
+    except (OSError, SyntaxError) as e:
+        raise AnalysisError(f"generated lexer unreadable: {e}")
+    data = None
+    for nd in _ast.walk(tree):
+        if isinstance(nd, _ast.FunctionDef) and nd.name == "serializedATN":
+            for r in _ast.walk(nd):
+                if isinstance(r, _ast.Return):
+                    try:
+                        data = _ast.literal_eval(r.value)
+                    except ValueError:
+                        data = None
+    if not isinstance(data, list):
+        raise AnalysisError("generated lexer: serializedATN() is not a literal list (anchor vanished)")
+    try:
+        atn = decode_atn(data)
+    except IndexError:
+        raise AnalysisError("generated lexer: serialized ATN is truncated")
+    if atn["type"] != 0:
+        raise AnalysisError("generated lexer: the ATN is not a lexer ATN")
+    # grammar side: implicit literal tokens in order of first appearance in the parser rules, then the named lexer rules
+    literals = []
+    for name, alts in g.items():
+        if name[:1].isupper():
+            continue
+        for a in alts:
+            for e in a["elems"]:
+                if e.startswith("'") and e not in literals:
+                    literals.append(e)
+    named = [n for n in g if n[:1].isupper()]
+    nrules = len(atn["rules"])
+    rep.check(nrules == len(literals) + len(named), "LEX.generated", site, "token rules", "one lexer rule per literal of the parser rules and per named token of the grammar",
+              extracted=f"{nrules} rules", required=f"{len(literals)} literals + {len(named)} named tokens", function=site)
+    if nrules != len(literals) + len(named):
+        return
+    by_rule = {}
+    for e in atn["edges"]:
+        st = atn["states"][e[0]]
+        if st is not None:
+            by_rule.setdefault(st[1], []).append(e)
+    ng_rules = {atn["states"][s][1] for s in atn["nongreedy"] if atn["states"][s] is not None}
+    # which rule carries which action: ACTION transitions (type 6) name the action index in arg2
+    act_rules = {}
+    for e in atn["edges"]:
+        if e[2] == 6:
+            st = atn["states"][e[0]]
+            act_rules.setdefault(st[1], []).append(atn["actions"][e[4]][0] if e[4] < len(atn["actions"]) else None)
+
+    def chars_of(rule):
+        pos_chars, neg_chars, wild = set(), set(), 0
+        for e in by_rule.get(rule, []):
+            if e[2] == 5:
+                pos_chars.add(e[3])
+            elif e[2] == 2:
+                pos_chars |= set(range(e[3], e[4] + 1))
+            elif e[2] in (7, 8):
+                cs = set()
+                for a, b in atn["sets"][e[3]][0]:
+                    cs |= set(range(a, b + 1))
+                (pos_chars if e[2] == 7 else neg_chars).update(cs)
+            elif e[2] == 9:
+                wild += 1
+        return pos_chars, neg_chars, wild
+
+    # literal tokens: the atoms along the rule spell the literal
+    got_lits = []
+    for k in range(len(literals)):
+        atoms = {}
+        for e in by_rule.get(k, []):
+            if e[2] == 5:
+                atoms[e[0]] = (e[1], e[3])
+        start = atn["rules"][k][0]
+        # follow: rule start -epsilon-> first, then atoms
+        nxt = {e[0]: e[1] for e in by_rule.get(k, []) if e[2] == 1}
+        cur, word, guard = start, "", 0
+        while guard < 200:
+            guard += 1
+            if cur in atoms:
+                cur, ch = atoms[cur][0], atoms[cur][1]
+                word += chr(ch)
+            elif cur in nxt:
+                cur = nxt[cur]
+            else:
+                break
+        got_lits.append(word)
+    want_lits = [_g4_charset(l)[1] for l in literals]
+    rep.check(got_lits == want_lits, "LEX.generated", site, "literal tokens", "the implicit tokens of the generated lexer spell the literals of the grammar, in the grammar's order (token types follow this order)",
+              extracted=str(got_lits), required=str(want_lits), function=site)
+    for j, name in enumerate(named):
+        k = len(literals) + j
+        pos_c, neg_c, wild = chars_of(k)
+        gp, gn, gw, g_ng = set(), set(), 0, False
+        for a in g[name]:
+            el = a["elems"]
+            for i, t in enumerate(el):
+                cs, _ = _g4_charset(t)
+                negated = i > 0 and el[i - 1] == "~" or (i > 1 and el[i - 1] == "(" and el[i - 2] == "~")
+                # a negated group ~( 'a' | 'b' ): every literal until the closing parenthesis
+                if cs is not None:
+                    depth_neg = False
+                    d = 0
+                    for b in range(i - 1, -1, -1):
+                        if el[b] == ")":
+                            d += 1
+                        elif el[b] == "(":
+                            if d == 0:
+                                depth_neg = b > 0 and el[b - 1] == "~"
+                                break
+                            d -= 1
+                    (gn if (negated or depth_neg) else gp).update(cs)
+                if t == ".":
+                    gw += 1
+                if t in "*+" and i + 1 < len(el) and el[i + 1] == "?":
+                    g_ng = True
+        skip_g = all(a["skip"] for a in g[name])
+        skip_a = 6 in act_rules.get(k, [])
+        rep.check(pos_c == gp and neg_c == gn, "LEX.generated", site, f"{name} characters", f"the generated rule for {name} accepts the characters the grammar names",
+                  extracted=f"+{sorted(pos_c)[:12]} -{sorted(neg_c)}", required=f"+{sorted(gp)[:12]} -{sorted(gn)}", function=site)
+        rep.check(wild == gw, "LEX.generated", site, f"{name} wildcards", "as many wildcard transitions as the grammar rule has '.'", extracted=str(wild), required=str(gw), function=site)
+        rep.check((k in ng_rules) == g_ng, "LEX.generated", site, f"{name} loop greediness", "a loop is non-greedy in the generated lexer exactly when the grammar writes '*?' / '+?'",
+                  extracted="non-greedy" if k in ng_rules else "greedy", required="non-greedy" if g_ng else "greedy", function=site)
+        rep.check(skip_a == skip_g, "LEX.generated", site, f"{name} skip action", "the generated rule skips the token exactly when the grammar says '-> skip'", extracted=str(skip_a), required=str(skip_g), function=site)
+    rep.floor("named lexer rules compared with the ATN", len(named), 5)
